@@ -9,173 +9,176 @@ Lemma upd_other : forall A (f : nat -> A) k v i, i <> k -> upd f k v i = f i.
 Proof. intros. unfold upd. destruct (Nat.eqb i k) eqn:E; auto. apply Nat.eqb_eq in E. contradiction. Qed.
 
 (* h is a heap reached from the caller's heap h0: every object that existed keeps its
-   content, except the state of the one Generator the simulator shares by design *)
-Record frame (fixed : bool) (shared : option nat) (h0 h : heap) : Prop := mkF {
+   content, except the states of the two generators (numpy Generator, random.Random) that
+   Config.copy shares with the caller's Config by design *)
+Record frame (fixed : bool) (shared spy : option nat) (h0 h : heap) : Prop := mkF {
   f_nrng : h_nrng h0 <= h_nrng h;
+  f_npy : h_npy h0 <= h_npy h;
   f_ncfg : h_ncfg h0 <= h_ncfg h;
   f_nst : h_nst h0 <= h_nst h;
   f_cfg : forall c, c < h_ncfg h0 -> h_cfg h c = h_cfg h0 c;
   f_st : forall s, s < h_nst h0 -> h_st h s = h_st h0 s;
   f_rng : forall r, r < h_nrng h0 -> Some r <> shared -> h_rng h r = h_rng h0 r;
+  f_py : forall r, r < h_npy h0 -> Some r <> spy -> h_py h r = h_py h0 r;
   f_glob : fixed = true -> h_global h = h_global h0
 }.
 
-Lemma frame_refl : forall fx sh h, frame fx sh h h.
+Lemma frame_refl : forall fx sh sp h, frame fx sh sp h h.
 Proof. intros. constructor; auto. Qed.
 
 Definition rng_of (h : heap) (w : nat) : nat := c_rng (h_cfg h (s_cfg (h_st h w))).
+Definition py_of (h : heap) (w : nat) : nat := c_py (h_cfg h (s_cfg (h_st h w))).
 
-(* the working state is one of the executor's own objects, and the Generator it draws
-   from is its own or the shared one *)
-Definition wok (shared : option nat) (h0 h : heap) (w : nat) : Prop :=
-  h_nst h0 <= w /\ (h_nrng h0 <= rng_of h w \/ Some (rng_of h w) = shared).
+(* the working state is one of the executor's own objects, and the generators it draws
+   from are its own or the shared ones *)
+Definition wok (shared spy : option nat) (h0 h : heap) (w : nat) : Prop :=
+  h_nst h0 <= w
+  /\ (h_nrng h0 <= rng_of h w \/ Some (rng_of h w) = shared)
+  /\ (h_npy h0 <= py_of h w \/ Some (py_of h w) = spy).
 
-Ltac hsimpl := unfold alloc_rng, alloc_cfg, alloc_st, config_copy, write_state, draw_np, draw_py, seed_py in *; simpl in *.
+Ltac hsimpl := unfold alloc_rng, alloc_py, alloc_cfg, alloc_st, config_copy, write_state, draw_np,
+  draw_py, seed_global in *; simpl in *.
 
-Lemma frame_alloc_cfg : forall fx sh h0 h c, frame fx sh h0 h -> frame fx sh h0 (snd (alloc_cfg c h)).
+Lemma frame_alloc_cfg : forall fx sh sp h0 h c, frame fx sh sp h0 h -> frame fx sh sp h0 (snd (alloc_cfg c h)).
 Proof.
-  intros fx sh h0 h c F. destruct F. hsimpl. constructor; simpl; auto.
+  intros fx sh sp h0 h c F. destruct F. hsimpl. constructor; simpl; auto.
   intros c0 Hc. rewrite upd_other; auto. lia.
 Qed.
-Lemma frame_alloc_rng : forall fx sh h0 h v, frame fx sh h0 h -> frame fx sh h0 (snd (alloc_rng v h)).
-Proof.
-  intros fx sh h0 h v F. destruct F. hsimpl. constructor; simpl; auto.
-  intros r Hr Hs. rewrite upd_other; auto. lia.
-Qed.
-Lemma frame_alloc_st : forall fx sh h0 h s, frame fx sh h0 h -> frame fx sh h0 (snd (alloc_st s h)).
-Proof.
-  intros fx sh h0 h s F. destruct F. hsimpl. constructor; simpl; auto.
-  intros s0 Hs. rewrite upd_other; auto. lia.
-Qed.
 
-Lemma run_steps_frame : forall fx sh h0 evs w h,
-  frame fx sh h0 h -> wok sh h0 h w ->
-  frame fx sh h0 (snd (run_steps fx w evs h)).
+Lemma run_steps_frame : forall fx sh sp h0 evs w h,
+  frame fx sh sp h0 h -> wok sh sp h0 h w ->
+  frame fx sh sp h0 (snd (run_steps fx w evs h)).
 Proof.
-  intros fx sh h0. induction evs as [|e r IH]; intros w h F W; simpl; auto.
-  destruct W as [Wn Wr].
+  intros fx sh sp h0. induction evs as [|e r IH]; intros w h F W; simpl; auto.
+  destruct W as [Wn [Wr Wp]].
   destruct e.
   - (* HWrite *)
     apply IH.
     + destruct F. unfold write_state. constructor; simpl; auto.
       intros s Hs. rewrite upd_other; auto. lia.
-    + unfold wok, rng_of, write_state in *. simpl. rewrite upd_same. simpl. split; auto.
+    + unfold wok, rng_of, py_of, write_state in *. simpl. rewrite upd_same. simpl. auto.
   - (* HDrawNp *)
     apply IH.
     + destruct F. unfold draw_np. constructor; simpl; auto.
       intros r0 Hr Hs. fold (rng_of h w). rewrite upd_other; auto.
       intro E. subst r0. destruct Wr as [Wr|Wr]; [lia | congruence].
-    + unfold wok, rng_of, draw_np in *. simpl. split; auto.
+    + unfold wok, rng_of, py_of, draw_np in *. simpl. auto.
   - (* HDrawPy *)
     apply IH.
-    + destruct F. unfold draw_py. destruct fx; constructor; simpl; auto. discriminate.
-    + unfold wok, rng_of, draw_py in *. destruct fx; simpl; split; auto.
+    + destruct F. unfold draw_py. destruct fx; constructor; simpl; auto; try discriminate.
+      intros r0 Hr Hs. fold (py_of h w). rewrite upd_other; auto.
+      intro E. subst r0. destruct Wp as [Wp|Wp]; [lia | congruence].
+    + unfold wok, rng_of, py_of, draw_py in *. destruct fx; simpl; auto.
   - (* HFork *)
-    unfold state_deepcopy.
-    set (st := h_st h w). set (cf := h_cfg h (s_cfg st)).
-    hsimpl.
+    unfold state_deepcopy. hsimpl.
     apply IH.
     + destruct F. constructor; simpl; auto; try lia.
       * intros c Hc. rewrite upd_other; auto. lia.
       * intros s Hs. rewrite upd_other; auto. lia.
       * intros r0 Hr Hs. rewrite upd_other; auto. lia.
-    + unfold wok, rng_of. simpl. rewrite upd_same. simpl. rewrite upd_same. simpl.
-      destruct F. split; [lia | left; lia].
+      * intros r0 Hr Hs. rewrite upd_other; auto. lia.
+    + unfold wok, rng_of, py_of. simpl. rewrite upd_same. simpl. rewrite upd_same. simpl.
+      destruct F. split; [lia | split; left; lia].
   - (* HNewFrom *)
     unfold state_new. hsimpl.
     apply IH.
     + destruct F. constructor; simpl; auto; try lia.
       * intros c Hc. rewrite upd_other; auto. lia.
       * intros s Hs. rewrite upd_other; auto. lia.
-    + unfold wok, rng_of in *. simpl. rewrite upd_same. simpl. rewrite upd_same.
-      destruct F. split; [lia | exact Wr].
+    + unfold wok, rng_of, py_of in *. simpl. rewrite upd_same. simpl. rewrite upd_same.
+      destruct F. split; [lia | split; assumption].
 Qed.
 
 Definition shared_of (h0 : heap) (uc : option nat) : option nat :=
   match uc with Some c => Some (c_rng (h_cfg h0 c)) | None => None end.
+Definition shared_py_of (h0 : heap) (uc : option nat) : option nat :=
+  match uc with Some c => Some (c_py (h_cfg h0 c)) | None => None end.
 
 Theorem exec_heap_frame : forall fx uc ui ur evs h0,
-  (forall c, uc = Some c -> c < h_ncfg h0 /\ c_rng (h_cfg h0 c) < h_nrng h0) ->
-  (forall s, ui = Some s -> s < h_nst h0 /\ s_cfg (h_st h0 s) < h_ncfg h0) ->
-  (fx = true \/ uc <> None) ->   (* on the tree as it is, Simulator() itself seeds `random` *)
-  frame fx (shared_of h0 uc) h0 (exec_heap fx uc ui ur evs h0).
+  (forall c, uc = Some c -> c < h_ncfg h0) ->
+  (forall s, ui = Some s -> s < h_nst h0) ->
+  (fx = true \/ uc <> None) ->   (* before the repair Simulator() itself seeds `random` *)
+  frame fx (shared_of h0 uc) (shared_py_of h0 uc) h0 (exec_heap fx uc ui ur evs h0).
 Proof.
   intros fx uc ui ur evs h0 HC HS HG. unfold exec_heap.
-  set (sh := shared_of h0 uc).
-  (* the simulator's config *)
-  assert (S1 : frame fx sh h0 (snd (sim_new fx uc ur h0))
-               /\ h_ncfg h0 <= fst (sim_new fx uc ur h0)
+  set (sh := shared_of h0 uc). set (sp := shared_py_of h0 uc).
+  assert (S1 : frame fx sh sp h0 (snd (sim_new fx uc ur h0))
                /\ (let h1 := snd (sim_new fx uc ur h0) in
                    let sc := fst (sim_new fx uc ur h0) in
-                   h_nrng h0 <= c_rng (h_cfg h1 sc) \/ Some (c_rng (h_cfg h1 sc)) = sh)).
+                   (h_nrng h0 <= c_rng (h_cfg h1 sc) \/ Some (c_rng (h_cfg h1 sc)) = sh)
+                   /\ (h_npy h0 <= c_py (h_cfg h1 sc) \/ Some (c_py (h_cfg h1 sc)) = sp))).
   { destruct uc as [c|]; simpl.
-    - split; [apply frame_alloc_cfg; apply frame_refl|]. split; [lia|].
-      right. rewrite upd_same. reflexivity.
+    - split; [apply frame_alloc_cfg; apply frame_refl|].
+      rewrite upd_same. split; right; reflexivity.
     - unfold config_new. hsimpl. destruct HG as [HG|HG]; [|congruence]. subst fx. simpl.
       split.
       + constructor; simpl; auto.
         * intros c Hc. rewrite upd_other; auto. lia.
         * intros r Hr _. rewrite upd_other; auto. lia.
-      + split; [lia|]. left. rewrite upd_same. simpl. lia. }
+        * intros r Hr _. rewrite upd_other; auto. lia.
+      + rewrite upd_same. simpl. split; left; lia. }
   destruct (sim_new fx uc ur h0) as [sc h1] eqn:E1. simpl in S1.
-  destruct S1 as [F1 [Hsc Hr1]].
+  destruct S1 as [F1 [Hr1 Hp1]].
   destruct ui as [s|].
-  - destruct (HS s eq_refl) as [Hs Hcs].
-    unfold state_deepcopy. hsimpl.
+  - unfold state_deepcopy. hsimpl.
     apply run_steps_frame.
     + destruct F1. constructor; simpl; auto; try lia.
       * intros c Hc. rewrite upd_other; auto. lia.
       * intros s0 Hs0. rewrite upd_other; auto. lia.
       * intros r0 Hr Hs0. rewrite upd_other; auto. lia.
-    + unfold wok, rng_of. simpl. rewrite upd_same. simpl. rewrite upd_same. simpl.
-      destruct F1. split; [lia | left; lia].
+      * intros r0 Hr Hs0. rewrite upd_other; auto. lia.
+    + unfold wok, rng_of, py_of. simpl. rewrite upd_same. simpl. rewrite upd_same. simpl.
+      destruct F1. pose proof (HS s eq_refl). split; [lia | split; left; lia].
   - unfold state_new. hsimpl.
     apply run_steps_frame.
     + destruct F1. constructor; simpl; auto; try lia.
       * intros c Hc. rewrite upd_other; auto. lia.
       * intros s0 Hs0. rewrite upd_other; auto. lia.
-    + unfold wok, rng_of. simpl. rewrite upd_same. simpl. rewrite upd_same.
-      destruct F1. split; [lia | exact Hr1].
+    + unfold wok, rng_of, py_of. simpl. rewrite upd_same. simpl. rewrite upd_same.
+      destruct F1. split; [lia | split; assumption].
 Qed.
 
-(* the caller's Config object: every attribute and the identity of its Generator *)
+(* the caller's Config object: every attribute and the identity of its two generators *)
 Theorem caller_config_untouched : forall fx c ui ur evs h0,
-  c < h_ncfg h0 -> c_rng (h_cfg h0 c) < h_nrng h0 ->
-  (forall s, ui = Some s -> s < h_nst h0 /\ s_cfg (h_st h0 s) < h_ncfg h0) ->
+  c < h_ncfg h0 ->
+  (forall s, ui = Some s -> s < h_nst h0) ->
   h_cfg (exec_heap fx (Some c) ui ur evs h0) c = h_cfg h0 c.
 Proof.
-  intros fx c ui ur evs h0 Hc Hr HS.
-  assert (F : frame fx (shared_of h0 (Some c)) h0 (exec_heap fx (Some c) ui ur evs h0)).
+  intros fx c ui ur evs h0 Hc HS.
+  assert (F : frame fx (shared_of h0 (Some c)) (shared_py_of h0 (Some c)) h0
+                    (exec_heap fx (Some c) ui ur evs h0)).
   { apply exec_heap_frame; auto.
-    - intros c' E. inversion E; subst. split; assumption.
+    - intros c' E. inversion E; subst. assumption.
     - right. discriminate. }
   destruct F. auto.
 Qed.
 
-(* the caller's initial_state: its arrays, its Config and (unless it is the Generator shared
-   with the simulator's config) the state of its Generator *)
+(* the caller's initial_state: its arrays, its Config and - unless they are the very objects
+   shared with the simulator's config - the states of its generators *)
 Theorem initial_state_untouched : forall fx uc s ur evs h0,
-  (forall c, uc = Some c -> c < h_ncfg h0 /\ c_rng (h_cfg h0 c) < h_nrng h0) ->
-  s < h_nst h0 -> s_cfg (h_st h0 s) < h_ncfg h0 -> rng_of h0 s < h_nrng h0 ->
+  (forall c, uc = Some c -> c < h_ncfg h0) ->
+  s < h_nst h0 -> s_cfg (h_st h0 s) < h_ncfg h0 ->
+  rng_of h0 s < h_nrng h0 -> py_of h0 s < h_npy h0 ->
   (fx = true \/ uc <> None) ->
   let h := exec_heap fx uc (Some s) ur evs h0 in
   h_st h s = h_st h0 s /\ h_cfg h (s_cfg (h_st h0 s)) = h_cfg h0 (s_cfg (h_st h0 s))
-  /\ (Some (rng_of h0 s) <> shared_of h0 uc -> h_rng h (rng_of h0 s) = h_rng h0 (rng_of h0 s)).
+  /\ (Some (rng_of h0 s) <> shared_of h0 uc -> h_rng h (rng_of h0 s) = h_rng h0 (rng_of h0 s))
+  /\ (Some (py_of h0 s) <> shared_py_of h0 uc -> h_py h (py_of h0 s) = h_py h0 (py_of h0 s)).
 Proof.
-  intros fx uc s ur evs h0 HC Hs Hcs Hrs HG h.
-  assert (F : frame fx (shared_of h0 uc) h0 h).
-  { apply exec_heap_frame; auto. intros s' E. inversion E; subst. split; assumption. }
-  destruct F. split; [auto|]. split; [auto|]. intros N. apply f_rng0; auto.
+  intros fx uc s ur evs h0 HC Hs Hcs Hrs Hps HG h.
+  assert (F : frame fx (shared_of h0 uc) (shared_py_of h0 uc) h0 h).
+  { apply exec_heap_frame; auto. intros s' E. inversion E; subst. assumption. }
+  destruct F. repeat split; auto.
 Qed.
 
 (* repaired tree: nothing piquasso does reaches the `random` module's state *)
 Theorem global_random_untouched : forall uc ui ur evs h0,
-  (forall c, uc = Some c -> c < h_ncfg h0 /\ c_rng (h_cfg h0 c) < h_nrng h0) ->
-  (forall s, ui = Some s -> s < h_nst h0 /\ s_cfg (h_st h0 s) < h_ncfg h0) ->
+  (forall c, uc = Some c -> c < h_ncfg h0) ->
+  (forall s, ui = Some s -> s < h_nst h0) ->
   h_global (exec_heap true uc ui ur evs h0) = h_global h0.
 Proof.
   intros uc ui ur evs h0 HC HS.
-  assert (F : frame true (shared_of h0 uc) h0 (exec_heap true uc ui ur evs h0)).
+  assert (F : frame true (shared_of h0 uc) (shared_py_of h0 uc) h0 (exec_heap true uc ui ur evs h0)).
   { apply exec_heap_frame; auto. }
   destruct F. auto.
 Qed.
@@ -183,8 +186,9 @@ Qed.
 Theorem config_new_keeps_global : forall s h, h_global (snd (config_new true s h)) = h_global h.
 Proof. intros. reflexivity. Qed.
 
-(* the tree as it is: creating a Config, or one Fock-space measurement, writes it *)
-Definition heap0 : heap := mkH (fun _ => 0%Z) 0 (fun _ => mkC 0 0) 0 (fun _ => mkS 0 0) 0 0%Z 0%Z.
+(* before the repair: creating a Config, or one Fock-space measurement, writes it *)
+Definition heap0 : heap :=
+  mkH (fun _ => 0%Z) 0 (fun _ => 0%Z) 0 (fun _ => mkC 0 0 0) 0 (fun _ => mkS 0 0) 0 0%Z.
 
 Theorem global_random_written_refuted_on_current :
   (exists s h, h_global (snd (config_new false s h)) <> h_global h)
@@ -197,11 +201,13 @@ Proof.
     vm_compute. discriminate.
 Qed.
 
-(* by design (Config.copy keeps the Generator): the state of the caller's Generator advances *)
+(* by design (Config.copy keeps rng and _python_rng): the states of the caller's Config's
+   generators advance when the simulator draws *)
 Theorem caller_rng_shared_by_design :
-  exists h c evs, c < h_ncfg h /\
-    h_rng (exec_heap true (Some c) None 0%Z evs h) (c_rng (h_cfg h c)) <> h_rng h (c_rng (h_cfg h c)).
+  exists h c, c < h_ncfg h /\
+    h_rng (exec_heap true (Some c) None 0%Z [HDrawNp] h) (c_rng (h_cfg h c)) <> h_rng h (c_rng (h_cfg h c))
+    /\ h_py (exec_heap true (Some c) None 0%Z [HDrawPy] h) (c_py (h_cfg h c)) <> h_py h (c_py (h_cfg h c)).
 Proof.
-  exists (snd (config_new true 0%Z heap0)), 0, [HDrawNp]. split; [simpl; lia|].
-  vm_compute. discriminate.
+  exists (snd (config_new true 0%Z heap0)), 0. split; [simpl; lia|].
+  split; vm_compute; discriminate.
 Qed.
